@@ -216,6 +216,9 @@ func (fr *frame) contractCall(v ssa.Value, callee *ssa.Function, ct *Contract, a
 			fr.assume(t2)
 		}
 	}
+	if ct.Locks > 0 {
+		fr.lockRankLevel(ct.Locks, ct.Key, pos)
+	}
 	// havoc
 	if !ct.HasMod {
 		fr.havocAll("call to " + ct.Key + " (contract without modifies clause)")
@@ -263,32 +266,40 @@ func (fr *frame) havocKey(mk string, env *specEnv) {
 		fr.havocAll("modifies *")
 		return
 	}
+	hv := func(key string) {
+		c := u.declConst(fr.tag("hv_"+key), u.keySort[key])
+		u.heapTyping(key, c)
+		fr.st.set(key, c)
+	}
 	if _, ok := u.keySort[mk]; ok {
-		c := u.declConst(fr.tag("hv_"+mk), u.keySort[mk])
-		u.heapTyping(mk, c)
-		fr.st.set(mk, c)
+		hv(mk)
 		return
 	}
-	// expression forms
-	e, err := ParseSpec(mk)
-	if err == nil {
-		if key, ok := env.keyOfLValue(e); ok {
-			c := u.declConst(fr.tag("hv_"+key), u.keySort[key])
-			u.heapTyping(key, c)
-			fr.st.set(key, c)
+	// expression forms: only the named object is havoc'd (frame: all other objects are unchanged)
+	if e, err := ParseSpec(mk); err == nil {
+		if keys, ok := env.keysOfLValue(e); ok {
+			ref, hasRef := env.refOfLValue(e)
+			for _, k := range keys {
+				srt := u.keySort[k]
+				if hasRef && strings.HasPrefix(srt, "(Array Int ") {
+					inner := strings.TrimSuffix(strings.TrimPrefix(srt, "(Array Int "), ")")
+					c := u.declConst(fr.tag("hvobj_"+k), inner)
+					cur := fr.st.get(u, k)
+					nk := u.define(fr.tag("hv_"+k), srt, fmt.Sprintf("(store %s %s %s)", cur, ref, c))
+					if et, ok := u.keyElem[k]; ok && (strings.HasPrefix(k, "H.") || strings.HasPrefix(k, "C.")) {
+						if ti := u.typeInvariant(c, et, 0); ti != "" {
+							u.assert(ti)
+						}
+					}
+					fr.st.setAt(k, nk, ref)
+					continue
+				}
+				hv(k)
+			}
 			return
 		}
 	}
-	// unknown key that was never registered in this unit: nothing in the unit reads it yet;
-	// remember it so that a later registration starts from a havoc'd value.
-	fr.st.markWritten(mk)
-	u.pendingHavoc(mk, fr.st)
-}
-
-func (u *Unit) pendingHavoc(key string, st *state) {
-	// a key with no registered sort cannot be given a term now; mark it by overriding with
-	// a sentinel resolved on first read
-	st.over[key] = "\x00havoc"
+	u.bindingError(fmt.Sprintf("modifies clause %q does not denote a heap location", mk))
 }
 
 func (fr *frame) havocAll(why string) {
@@ -532,6 +543,10 @@ func (fr *frame) builtin(b *ssa.Builtin, c *ssa.CallCommon, pos ssa.Instruction)
 				panic(unsupportedf("len(map) in bv mode"))
 			}
 			fr.assume("(>= " + t + " 0)")
+			// an empty map has an empty domain (MapLen is the cardinality of the domain)
+			ks := u.sortOf(tt.Key())
+			dom := fmt.Sprintf("(select %s %s)", fr.st.get(u, u.keyMapDom(tt)), fr.term(a))
+			fr.assume(fmt.Sprintf("(=> (= %s 0) (forall ((x!k %s)) (! (not (select %s x!k)) :pattern ((select %s x!k)))))", t, ks, dom, dom))
 			return Val{t: t, typ: types.Typ[types.Int]}
 		}
 	case "append":
@@ -562,6 +577,14 @@ func (fr *frame) builtin(b *ssa.Builtin, c *ssa.CallCommon, pos ssa.Instruction)
 		return Val{}
 	case "print", "println":
 		return Val{}
+	case "clear":
+		if mt, ok := c.Args[0].Type().Underlying().(*types.Map); ok {
+			mm := fr.term(fr.val(c.Args[0]))
+			kd, kl := u.keyMapDom(mt), u.keyMapLen()
+			fr.st.setAt(kd, fmt.Sprintf("(store %s %s ((as const (Array %s Bool)) false))", fr.st.get(u, kd), mm, u.sortOf(mt.Key())), mm)
+			fr.st.setAt(kl, fmt.Sprintf("(store %s %s 0)", fr.st.get(u, kl), mm), mm)
+			return Val{}
+		}
 	case "recover":
 		return Val{t: "(mk-ifc 0 0)", typ: types.Universe.Lookup("any").Type()}
 	case "close":
